@@ -1,18 +1,35 @@
 #!/bin/sh
-# tools/seedlocal.sh <seeded id> <property> [--seed N] [--tier quick|thorough]
-# Applies seeded/<id>/patch.diff to the library worktree $VERIF_REPO (never /repo), runs ./check <property>
-# with the remaining arguments, prints the exit code, the wall time and the VIOLATION lines, and restores the worktree.
+# tools/seedlocal.sh <seeded-id> <prop> [--seed N] [--tier quick|thorough]
+#
+# Applies seeded/<id>/patch.diff in the scratch library worktree $VERIF_REPO (never /repo), runs ./check <prop>
+# against it and reverts the worktree.  Prints the VIOLATION lines, the exit code of the check and the wall time.
+# Exit code: 0 when the seeded change was CAUGHT (the check exited 1), 1 when it was missed (check exited 0),
+# 2 when the machinery could not run.
 set -u
-id="$1"; prop="$2"; shift 2
-root="$(cd "$(dirname "$0")/.." && pwd)"
+ROOT=$(cd "$(dirname "$0")/.." && pwd)
+id=${1:?usage: seedlocal.sh <seeded-id> <prop> [--seed N] [--tier T]}
+prop=${2:?usage: seedlocal.sh <seeded-id> <prop> [--seed N] [--tier T]}
+shift 2
 : "${VERIF_REPO:?set VERIF_REPO to your scratch worktree of the library}"
-case "$VERIF_REPO" in /repo|/repo/) echo "refusing to touch /repo"; exit 2;; esac
-if ! git -C "$VERIF_REPO" diff --quiet; then echo "seedlocal: $VERIF_REPO has uncommitted changes"; exit 2; fi
-git -C "$VERIF_REPO" apply "$root/seeded/$id/patch.diff" || { echo "seedlocal: patch does not apply"; exit 2; }
+case "$(cd "$VERIF_REPO" && pwd -P)" in
+  /repo|/repo/*) echo "seedlocal: refusing to touch /repo" >&2; exit 2 ;;
+esac
+export GOFLAGS=-mod=mod GOPROXY=off GOSUMDB=off GOTOOLCHAIN=local
+patch="$ROOT/seeded/$id/patch.diff"
+[ -f "$patch" ] || { echo "seedlocal: no $patch" >&2; exit 2; }
+if [ -n "$(git -C "$VERIF_REPO" status --porcelain --untracked-files=no)" ]; then
+  echo "seedlocal: $VERIF_REPO is not clean" >&2; exit 2
+fi
+git -C "$VERIF_REPO" apply "$patch" || { echo "seedlocal: patch does not apply" >&2; exit 2; }
+trap 'git -C "$VERIF_REPO" checkout -- . ' EXIT INT TERM
 t0=$(date +%s)
-out="$(cd "$root" && timeout 1500 ./check "$prop" "$@" 2>&1)"; rc=$?
+out=$(cd "$ROOT" && timeout 3000 ./check "$prop" "$@" 2>&1)
+rc=$?
 t1=$(date +%s)
-git -C "$VERIF_REPO" checkout -- .
-echo "$out" | grep -E "^VIOLATION|mismatches|further" | head -8
-echo "seedlocal: id=$id property=$prop args=$* exit=$rc wall_s=$((t1-t0))"
-exit $rc
+echo "$out" | grep -E '^(VIOLATION|KNOWN-FINDING|C[0-9]+:)' | head -8
+echo "seedlocal: id=$id prop=$prop args='$*' check_exit=$rc wall_s=$((t1 - t0))"
+case $rc in
+  1) exit 0 ;;
+  0) exit 1 ;;
+  *) echo "$out" | tail -20; exit 2 ;;
+esac
